@@ -26,7 +26,7 @@ PROPS = {
     "C03": dict(flavours=["asan"], quick=300000, thorough=9000000, chunk=4000, level="exploration"),
     "C05": dict(flavours=["asan"], quick=400000, thorough=12000000, chunk=5000, level="exploration"),
     "C10": dict(flavours=["asan"], quick=300000, thorough=8000000, chunk=4000, level="exploration"),
-    "C13": dict(flavours=["asan"], quick=60000, thorough=2500000, chunk=1500, level="exploration"),
+    "C13": dict(flavours=["asan"], quick=1000000, thorough=40000000, chunk=20000, level="exploration"),
     "C18": dict(flavours=["asan"], quick=150000, thorough=4000000, chunk=2000, level="exploration"),
     "C19": dict(flavours=["asan", "tsan"], quick=1500, thorough=60000, chunk=50, level="exploration"),
     "C20": dict(flavours=["asan"], quick=6000, thorough=150000, chunk=100, level="fault_enumeration"),
